@@ -126,3 +126,57 @@ Fixpoint wfe (e : bexp) : bool :=
        (xa if t1 and ... and tn else xb  for x in T)        n >= 1, all operands plain names *)
 Definition mk_and_atoms (ts : list nat) : bexp := match ts with [t] => Atom t | _ => And (map Atom ts) end.
 Definition if_and (ts : list nat) (xa xb : nat) : bexp := IfExp (mk_and_atoms ts) (Atom xa) (Atom xb).
+
+(* ------------------------------------------------------------------------------------------------
+   nesting depth 3 (Proofs/C03Roundtrip3.v): an `or` of alternatives; an alternative is an `and` of conjuncts; a conjunct
+   is a literal or an `or`-clause of literals.  (One alternative = the CNF family; all conjuncts literals = the DNF family.) *)
+Definition mk_alt3 (cs : list (list lit)) : bexp := mk_and_of (map mk_or cs).
+Definition dnf3 (alts : list (list (list lit))) : bexp := mk_or_of (map mk_alt3 alts).
+
+(* an alternative with a single conjunct must be a literal: an `or` directly under the outer `or` is flattened by Python *)
+Definition wf_alt3 (cs : list (list lit)) : Prop :=
+  cs <> [] /\ Forall (fun c => c <> []) cs /\ match cs with [c] => length c = 1 | _ => True end.
+Definition wf3 (alts : list (list (list lit))) : Prop := 2 <= length alts /\ Forall wf_alt3 alts.
+
+(* a run of literals that all jump on the same truth value c to the same target *)
+Fixpoint chain_code (c : bool) (tg : tgt) (ls : list lit) : list instr :=
+  match ls with [] => [] | l :: r => lval l ++ ljmp l c tg :: chain_code c tg r end.
+
+(* a clause: every literal but the last jumps to the end of the clause when true; the last jumps to tg when false *)
+Fixpoint or_fwd_to (ls : list lit) (nextcl : nat) (tg : tgt) : list instr :=
+  match ls with
+  | [] => []
+  | l :: r => match r with
+              | [] => lval l ++ [ljmp l false tg]
+              | _ :: _ => lval l ++ ljmp l true (TAt nextcl) :: or_fwd_to r nextcl tg
+              end
+  end.
+
+Fixpoint conj_code (cs : list (list lit)) (p : nat) (tg : tgt) : list instr :=
+  match cs with
+  | [] => []
+  | c :: r => or_fwd_to c (p + lws c) tg ++ conj_code r (p + lws c) tg
+  end.
+
+(* an alternative that is not the last: conjuncts jump to the next alternative when false, except the last conjunct, all
+   of whose literals jump to the body when true *)
+Fixpoint alt3_fwd (cs : list (list lit)) (p nextalt body : nat) : list instr :=
+  match cs with
+  | [] => []
+  | c :: r => match r with
+              | [] => chain_code true (TAt body) c
+              | _ :: _ => or_fwd_to c (p + lws c) (TAt nextalt) ++ alt3_fwd r (p + lws c) nextalt body
+              end
+  end.
+
+Fixpoint dnf3_code (alts : list (list (list lit))) (p body : nat) : list instr :=
+  match alts with
+  | [] => []
+  | cs :: r => match r with
+               | [] => conj_code cs p TTop
+               | _ :: _ => alt3_fwd cs p (p + total_lits cs) body ++ dnf3_code r (p + total_lits cs) body
+               end
+  end.
+
+Fixpoint tot3 (alts : list (list (list lit))) : nat :=
+  match alts with [] => 0 | cs :: r => total_lits cs + tot3 r end.
